@@ -103,55 +103,53 @@ inductive Mode where
 
 def isQuote (c : Char) : Bool := c = '\'' || c = '"' || c = '`'
 
-def closeQuoted (q : Char) (acc : Str) (out : List Piece) : Except LexErr (List Piece) :=
-  if q = '\'' then .ok (.str acc.reverse :: out)
+/-- the piece a quoted token becomes when its closing quote has been confirmed -/
+def closeQuoted (q : Char) (acc : Str) : Except LexErr (List Piece) :=
+  if q = '\'' then .ok [.str acc.reverse]
   else if acc.isEmpty then .error .emptyIdent
-  else .ok (.ident acc.reverse :: out)
+  else .ok [.ident acc.reverse]
 
-/-- one character in code position (mode `norm`) -/
-def normStep (holes : Bool) (out : List Piece) (c : Char) : Mode × List Piece :=
-  if isQuote c then (.inq c [], out)
-  else if c = '-' then (.dash, out)
-  else if isWs c then (.norm, out)
-  else if holes && c = '?' then (.norm, .hole :: out)
-  else (.norm, .ch c :: out)
+/-- one character in code position (mode `norm`): pieces produced and next mode -/
+def normStep (holes : Bool) (c : Char) : List Piece × Mode :=
+  if isQuote c then ([], .inq c [])
+  else if c = '-' then ([], .dash)
+  else if isWs c then ([], .norm)
+  else if holes && c = '?' then ([.hole], .norm)
+  else ([.ch c], .norm)
 
-def scanStep (holes : Bool) (st : Mode × List Piece) (c : Char) : Except LexErr (Mode × List Piece) :=
-  match st with
-  | (.norm, out) => .ok (normStep holes out c)
-  | (.dash, out) =>
-    if c = '-' then .ok (.comment, out)
-    else .ok (normStep holes (.ch '-' :: out) c)
-  | (.comment, out) => if c = '\n' then .ok (.norm, out) else .ok (.comment, out)
-  | (.inq q acc, out) => if c = q then .ok (.qq q acc, out) else .ok (.inq q (c :: acc), out)
-  | (.qq q acc, out) =>
-    if c = q then .ok (.inq q (q :: acc), out)
+def stepMode (holes : Bool) : Mode → Char → Except LexErr (List Piece × Mode)
+  | .norm, c => .ok (normStep holes c)
+  | .dash, c =>
+    if c = '-' then .ok ([], .comment)
+    else .ok (.ch '-' :: (normStep holes c).1, (normStep holes c).2)
+  | .comment, c => .ok ([], if c = '\n' then .norm else .comment)
+  | .inq q acc, c => if c = q then .ok ([], .qq q acc) else .ok ([], .inq q (c :: acc))
+  | .qq q acc, c =>
+    if c = q then .ok ([], .inq q (q :: acc))
     else
-      match closeQuoted q acc out with
-      | .ok out' => .ok (normStep holes out' c)
+      match closeQuoted q acc with
+      | .ok p => .ok (p ++ (normStep holes c).1, (normStep holes c).2)
       | .error e => .error e
 
-def scanRun (holes : Bool) : Mode × List Piece → Str → Except LexErr (Mode × List Piece)
-  | st, [] => .ok st
-  | st, c :: cs =>
-    match scanStep holes st c with
-    | .ok st' => scanRun holes st' cs
+/-- end of input -/
+def finishMode : Mode → Except LexErr (List Piece)
+  | .norm => .ok []
+  | .dash => .ok [.ch '-']
+  | .comment => .ok []
+  | .inq _ _ => .error .unterminated
+  | .qq q acc => closeQuoted q acc
+
+def scanGo (holes : Bool) : Mode → Str → Except LexErr (List Piece)
+  | m, [] => finishMode m
+  | m, c :: cs =>
+    match stepMode holes m c with
+    | .ok (ps, m') =>
+      match scanGo holes m' cs with
+      | .ok rest => .ok (ps ++ rest)
+      | .error e => .error e
     | .error e => .error e
 
-def scanFinish : Mode × List Piece → Except LexErr (List Piece)
-  | (.norm, out) => .ok out.reverse
-  | (.dash, out) => .ok (.ch '-' :: out).reverse
-  | (.comment, out) => .ok out.reverse
-  | (.inq _ _, _) => .error .unterminated
-  | (.qq q acc, out) =>
-    match closeQuoted q acc out with
-    | .ok out' => .ok out'.reverse
-    | .error e => .error e
-
-def scanWith (holes : Bool) (s : Str) : Except LexErr (List Piece) :=
-  match scanRun holes (.norm, []) s with
-  | .ok st => scanFinish st
-  | .error e => .error e
+def scanWith (holes : Bool) (s : Str) : Except LexErr (List Piece) := scanGo holes .norm s
 
 /-- pieces of a SQL text -/
 def scan (s : Str) : Except LexErr (List Piece) := scanWith false s
@@ -624,29 +622,16 @@ def fill : List Piece → List PVal → List Piece
 
 structure Cursor (σ : Type) where
   cache : List (Str × σ)
+  deriving DecidableEq
 
 def lookup {σ : Type} (k : Str) : List (Str × σ) → Option σ
   | [] => none
   | (k', v) :: rest => if k = k' then some v else lookup k rest
 
 /-- `Cursor::execute` up to the point where the statement is handed to the executor: the
-statement that will be run, and the cursor afterwards.  The cache is keyed by the text that is
-parsed (the SQL after binding). -/
+statement that will be run, and the cursor afterwards.  As coded the cache is keyed by the SQL text
+*before* binding, and binding happens only on a miss. -/
 def prepare {σ : Type} (parse : Str → Option σ) (cur : Cursor σ) (sql : Str)
-    (params : Option (List PVal)) : Except BErr (σ × Cursor σ) :=
-  match bind sql params with
-  | .error e => .error e
-  | .ok text =>
-    match lookup text cur.cache with
-    | some stmt => .ok (stmt, cur)
-    | none =>
-      match parse text with
-      | none => .error .parse
-      | some stmt => .ok (stmt, { cache := (text, stmt) :: cur.cache })
-
-/-- the cache as it was keyed before the repair: by the SQL text *before* binding (kept for the
-counterexample that motivated the repair) -/
-def prepareUnboundKey {σ : Type} (parse : Str → Option σ) (cur : Cursor σ) (sql : Str)
     (params : Option (List PVal)) : Except BErr (σ × Cursor σ) :=
   match lookup sql cur.cache with
   | some stmt => .ok (stmt, cur)
@@ -657,6 +642,19 @@ def prepareUnboundKey {σ : Type} (parse : Str → Option σ) (cur : Cursor σ) 
       match parse text with
       | none => .error .parse
       | some stmt => .ok (stmt, { cache := (sql, stmt) :: cur.cache })
+
+/-- the repaired design: bind first, key the cache by the text that is parsed -/
+def prepareBoundKey {σ : Type} (parse : Str → Option σ) (cur : Cursor σ) (sql : Str)
+    (params : Option (List PVal)) : Except BErr (σ × Cursor σ) :=
+  match bind sql params with
+  | .error e => .error e
+  | .ok text =>
+    match lookup text cur.cache with
+    | some stmt => .ok (stmt, cur)
+    | none =>
+      match parse text with
+      | none => .error .parse
+      | some stmt => .ok (stmt, { cache := (text, stmt) :: cur.cache })
 
 /-- schema-changing statements clear the cache -/
 def clear {σ : Type} (_ : Cursor σ) : Cursor σ := { cache := [] }
